@@ -289,7 +289,7 @@ class SplineObject(object):
                 for i in range(n):
                     ip1 = np.mod(i+1,n)
                     C[i,i]   = -float(p) / (k[i+p+1] - k[i+1])
-                    C[i,ip1] =  float(p) / (k[i+p+1] - k[i+1])
+                    C[i,ip1] +=  float(p) / (k[i+p+1] - k[i+1])
 
             derivative_cps = np.tensordot(C, self.controlpoints, axes=(1, d))
             derivative_cps = derivative_cps.transpose(transpose_fix(self.pardim, d))
